@@ -6,7 +6,7 @@ Direct oracle (independent of the model): no raw angle bracket, every '&' starts
 of html.entities.html5, html.unescape gives the original back, and the real parser (BeautifulSoup + html.parser)
 reads the original back from element text and from a quoted attribute value; the quoted value is well-formed.
 """
-import html, html.entities, html.parser, itertools, json, os, re
+import copy, html, html.entities, html.parser, itertools, json, os, re
 
 from bs4 import BeautifulSoup
 from bs4.dammit import EntitySubstitution as ES
@@ -19,12 +19,15 @@ RULE = ("strings: (a) every BMP code point as a one-character string (plus all o
         "astral code point) through the implementation and the direct oracle (model correspondence in the quick tier: "
         "all below U+3000, every code point of an entity sequence and its neighbours, every 7th of the rest); (b) every character sequence of html.entities.html5, alone, doubled, embedded, its first "
         "character alone and before each look-ahead character; (c) every '&'+name of html.entities.html5 with and "
-        "without ';' before each of five followers; (d) all strings of <=4 (thorough <=5) tokens over the 12 markup "
+        "without ';' before each of five (quick: three) followers; (d) all strings of <=4 (thorough <=5) tokens over the 12 markup "
         "tokens & < > \" ' ; # x 1 amp U+2267 U+0338; (e) seeded random strings of 0-14 tokens over markup characters, "
         "entity sequences, names, numeric references, controls, astral and (malformed stream) arbitrary code points "
         "incl. lone surrogates; (f) the corpus. Each string goes through substitute_xml (plain and quoted), "
         "substitute_html, substitute_html5, quoted_attribute_value; a slice through Formatter.substitute / "
-        "attribute_value of every registered name and through Tag.decode. Non-trivial: the string contains a "
+        "attribute_value of every registered name and through Tag.decode; a sample through every string class an HTML "
+        "builder creates (NavigableString, Script, Stylesheet, TemplateString, RubyTextString, RubyParenthesisString) x "
+        "seven histories (in place, moved, copied, parent renamed, moved into <script>, parent copied and renamed) x every "
+        "registered formatter: the string is substituted according to where it IS. Non-trivial: the string contains a "
         "character some substitution or the quoting rewrites. Distinct by string.")
 ASSUMPTIONS = [
     "element text is read back by the stdlib html.parser tokenizer + bs4's handle_entityref/handle_charref: modelled by "
@@ -227,7 +230,7 @@ def family_names(ctx):
     out = []
     for n in NAMES:
         base = n[:-1] if n.endswith(";") else n
-        for f in FOLLOW:
+        for f in (FOLLOW if ctx.thorough else FOLLOW[:2] + FOLLOW[4:]):
             out.append("&" + base + f)
         out.append("&" + base + ";" + "x")
         out.append("&amp;" + base + ";")
@@ -551,6 +554,99 @@ def formatter_level(ctx, strings):
                          tag="registry")
 
 
+# ------------------------------------------------------------------------------------------ string classes and histories
+# Which strings are substituted is decided by Formatter.substitute from where the string IS (the name of its parent,
+# against cdata_containing_tags) - not from how it got there and not from the class the tree builder gave it.
+HOLDERS = ["p", "script", "style", "template", "rt", "rp"]          # -> NavigableString, Script, Stylesheet, TemplateString, Ruby*
+HISTORIES = ["in place", "moved to pre", "copied to em", "parent renamed to code", "parent renamed to script",
+             "moved into script", "parent copied then renamed to code"]
+
+
+def string_scenario(s, holder, history):
+    """Parse a small document, give the string of <holder> (an object of the class the builder uses there) the text s,
+    apply the history; returns (element whose text the string now is, the string object)."""
+    soup = BeautifulSoup("<div><%s>x</%s><pre></pre><em></em><script></script></div>" % (holder, holder), "html.parser")
+    el = soup.find(holder)
+    obj = type(el.string)(s)
+    el.string.replace_with(obj)
+    if history == "in place":
+        return el, obj
+    if history == "moved to pre":
+        soup.pre.append(obj.extract())
+        return soup.pre, obj
+    if history == "copied to em":
+        c = copy.copy(obj)
+        soup.em.append(c)
+        return soup.em, c
+    if history == "parent renamed to code":
+        el.name = "code"
+        return el, obj
+    if history == "parent renamed to script":
+        el.name = "script"
+        return el, obj
+    if history == "moved into script":
+        target = soup.find_all("script")[-1]
+        target.append(obj.extract())
+        return target, obj
+    if history == "parent copied then renamed to code":
+        c = copy.copy(el)
+        c.name = "code"
+        return c, c.contents[0]
+    raise ValueError(history)
+
+
+def string_class_level(ctx, strings):
+    regs = [(False, HTMLFormatter, k) for k in HTMLFormatter.REGISTRY] + [(True, XMLFormatter, k) for k in XMLFormatter.REGISTRY]
+    cmds, cases = [], []
+    for s in strings:
+        for holder in HOLDERS:
+            for history in HISTORIES:
+                for xml, cls, name in regs:
+                    f = cls.REGISTRY[name]
+                    try:
+                        el, obj = string_scenario(s, holder, history)
+                        got = (exc(lambda: obj.output_ready(formatter=f)), exc(lambda: el.decode(formatter=f)))
+                        parent, kind = el.name, type(obj).__name__
+                    except Exception as e:
+                        got, parent, kind = ("EXC:" + type(e).__name__,) * 2, "?", "?"
+                    ctx.case(("cls", xml, name, holder, history, s), nontrivial=interesting(s))
+                    cmds.append([9004, xml, common.opt(name), parent in ("script", "style") and not xml, s])
+                    cases.append((xml, name, holder, history, s, parent, kind, got))
+    ctx.count("string_class_cases", len(cases))
+    res = ctx.model.run(cmds) if ctx.build.model_ok else [None] * len(cases)
+    for (xml, name, holder, history, s, parent, kind, got), r in zip(cases, res):
+        case = {"s": s, "formatter": name, "xml": xml, "holder": holder, "history": history, "string_class": kind,
+                "parent": parent}
+        # ---- direct oracle: ordinary element text is escaped reversibly whatever the string's class and history
+        if name in ("minimal", "html", "html5") and parent not in ("script", "style", "?") and isinstance(got[1], str) \
+                and not got[1].startswith("EXC:") and not (name == "html5" and bare_positions(s)):
+            w = got[1]
+            body = w[len(parent) + 2:len(w) - len(parent) - 3] if w.startswith("<%s>" % parent) and w.endswith("</%s>" % parent) else None
+            bad = None
+            if body is None or "<" in body or ">" in body:
+                bad = "raw angle bracket in the text of <%s>" % parent
+            elif py_unescape(body) != s and name != "html5":
+                bad = "html.unescape of the written text is not the original"
+            elif s.strip(" \t\n\r\x0c") != "":
+                back = exc(BeautifulSoup, w, "html.parser")
+                bel = back.find(parent) if not isinstance(back, str) else None
+                if bel is None or not all(isinstance(k, NavigableString) for k in bel.contents) \
+                        or "".join(bel.contents) != s:
+                    bad = "the text of <%s> is not read back as the original" % parent
+            if bad:
+                ctx.fail(case, "a %s that is the text of <%s> (%s): %s" % (kind, parent, history, bad), w, s,
+                         tag="string-class-readback")
+        # ---- correspondence: Formatter.substitute decides by the parent's name only
+        if r is None or isinstance(r, tuple) or not r:
+            continue
+        mt = ts(r[0][0]) if r[0] else "EXC:KeyError"
+        exp = (mt, "<%s>%s</%s>" % (parent, mt, parent))
+        for g, e, nm in zip(got, exp, ("output_ready", "Tag.decode")):
+            if g != e:
+                ctx.disagree("%s of a parsed string object after a history ~ Model.EntitySubst.formatter_substitute" % nm,
+                             case, g, e)
+
+
 # ------------------------------------------------------------------------------------------ real reader, other contexts
 def real_reader_contexts(ctx):
     """Model/TextReaderReal.real_read_text against the parser for raw texts (not outputs), in three document contexts:
@@ -610,6 +706,10 @@ def run(ctx):
         step = max(1, len(strings) // (400 if ctx.thorough else 120))
         slice_for_formatters += strings[::step]
     real_reader_contexts(ctx)
+    pool = [x for x in dict.fromkeys(slice_for_formatters) if any(c in "&<>" for c in x) and len(x) < 40]
+    k = 24 if ctx.thorough else 8
+    string_class_level(ctx, ["a<b", "x > y", "AT&T", "&amp;", "if (a < b && c > d) { go('&lt;'); }", "<\u20d2\u00e9>", "\"'<>&"]
+                       + ctx.rng.sample(pool, min(k, len(pool))))
     formatter_level(ctx, list(dict.fromkeys(slice_for_formatters + ["", "&", "<>", "a\"b'c", "&amp x", "≧̸"])))
     ctx.counts.update({"html5_known_class_cases": st["known"], "html5_no_bare_ref_true": st["nbr_true"],
                        "html5_no_bare_ref_false": st["nbr_false"],
@@ -644,6 +744,20 @@ def replay(ctx, data):
         print("nothing to replay in", data.get("kind"), data.get("no_longer_checks"))
         return 1
     fmt = c.get("formatter")
+    if "history" in c:
+        cls = XMLFormatter if c["xml"] else HTMLFormatter
+        fo = cls.REGISTRY.get(fmt)
+        el, obj = string_scenario(s, c["holder"], c["history"])
+        w = exc(lambda: el.decode(formatter=fo))
+        back = exc(BeautifulSoup, w, "html.parser") if isinstance(w, str) else None
+        bel = back.find(el.name) if back is not None and not isinstance(back, str) else None
+        rt = "".join(str(k) for k in bel.contents) if bel is not None else None
+        print("%s.REGISTRY[%r]: a %s with text %r, history %r, is now the text of <%s>: written %r ; read back %r"
+              % (cls.__name__, fmt, type(obj).__name__, s, c["history"], el.name, w, rt))
+        body = w[len(el.name) + 2:len(w) - len(el.name) - 3] if isinstance(w, str) else ""
+        bad = el.name not in ("script", "style") and ("<" in body or ">" in body or (s.strip() != "" and rt != s))
+        print("still failing" if bad else "no longer failing")
+        return 1 if bad else 0
     if "xml" in c:
         # formatter level: Formatter.substitute / attribute_value / Tag.decode of the registered name
         cls = XMLFormatter if c["xml"] else HTMLFormatter
